@@ -271,12 +271,11 @@ def run(ctx):
             L = 3
             hs = list(itertools.product(ops, repeat=L))
             if not ctx.quick:
-                hs += [tuple(rnd.choice(ops) for _ in range(rnd.randint(4, 8))) for _ in range(60000)]
+                hs += [tuple(rnd.choice(ops) for _ in range(rnd.randint(4, 8))) for _ in range(30000)]
             elif kind != 'so':
                 hs += [tuple(rnd.choice(ops) for _ in range(5)) for _ in range(4000)]
             jobs += [(kind, h) for h in hs]
         results = core.pmap(run_history, jobs, chunksize=256)
-        path = sc.file('cont.ndjson')
         traces = []
         for n, ((kind, h), ev) in enumerate(zip(jobs, results)):
             traces.append({'id': n + 1, 'kind': kind, 'ev': ev})
@@ -293,15 +292,16 @@ def run(ctx):
                     c['ev'][0]['isv'] = False
                 c['id'] = 10 ** 8 + len(st)
                 st.append(c)
-        with open(path, 'w') as f:
-            for t in traces + st:
-                f.write(json.dumps(t, separators=(',', ':')) + '\n')
-        tlc.write_cfg(sc.file('cont.cfg'), spec='TraceSpec', invariants=['ChoiceOk'])
-        r = tlc.run(os.path.join(tlc.SPEC, 'Trace_Container.tla'), sc.file('cont.cfg'), sc, env={'TRACE_FILE': path},
-                    timeout=3000, heap='16g')
-        ctx.add_tlc('container histories', r)
-        if not r.ok:
-            raise core.Machinery('container acceptor failed: %s %s\n%s' % (r.violated, r.errors[:3], r.out[-2500:]))
+        try:
+            printed = tlc.run_traces(ctx, sc, 'Trace_Container', traces + st, 'container histories', nev=lambda t: len(t['ev']),
+                                     max_events=150000, invariants=['ChoiceOk'], heap='16g')
+        except tlc.AcceptorFailure as e:
+            raise core.Machinery('container acceptor failed: %s' % e)
+
+        class _R:          # noqa
+            pass
+        r = _R()
+        r.printed = printed
         rej = [p for p in r.printed if isinstance(p, list) and len(p) == 4 and p[0] == 'REJECT']
         if {p[1] for p in rej if p[1] >= 10 ** 8} != {t['id'] for t in st}:
             raise core.Machinery('container acceptor self-test failed')
